@@ -2,7 +2,7 @@
 Tie A (C14): `varint_done` as clang reads it is the model's predicate.
 -/
 import Ufw.Gen.VarintLoops
-import Ufw.Model.Varint
+import Ufw.Tie.VarintLoops.Common
 namespace Ufw.Tie.VarintLoops
 open Ufw.Tie.CPre
 
